@@ -52,7 +52,7 @@ func (f *Subtract) Call(s *slip.Scope, args slip.List, depth int) (dif slip.Obje
 			if pos == len(args)-1 {
 				switch td := dif.(type) {
 				case slip.Fixnum:
-					dif = -td
+					dif = subFixnums(0, td)
 				case slip.SingleFloat:
 					dif = -td
 				case slip.DoubleFloat:
@@ -73,7 +73,7 @@ func (f *Subtract) Call(s *slip.Scope, args slip.List, depth int) (dif slip.Obje
 		arg, dif = slip.NormalizeNumber(a, dif)
 		switch ta := arg.(type) {
 		case slip.Fixnum:
-			dif = dif.(slip.Fixnum) - ta
+			dif = subFixnums(dif.(slip.Fixnum), ta)
 		case slip.SingleFloat:
 			dif = dif.(slip.SingleFloat) - ta
 		case slip.DoubleFloat:
